@@ -80,6 +80,22 @@ def handle (req : Json) : Except String Json := do
     let manik ← bool (fieldD req "manik" (Json.bool false))
     let r := if manik then manikRead ls else libsvmRead ls
     pure (obj [("rows", exJ (ofList svmRowJ) r)])
+  | "arffdense" =>
+    -- data lines of a dense ARFF file through one ArffLineReader (simple path only)
+    let ls ← texts (← field req "lines")
+    let n ← nat (← field req "n")
+    pure (obj [("rows", exJ (ofList linesJ) (arffLines n ALR.init ls))])
+  | "arffwrite" =>
+    let q ← nat (← field req "q")
+    let also ← natList (← field req "also")
+    let rows ← (← arr (← field req "rows")).mapM (fun r => do
+      let pad ← nat (← field r "pad")
+      let toks ← (← arr (← field r "toks")).mapM (fun x => do
+        let qd ← bool (← field x "q"); let f ← natList (← field x "f"); pure (qd, f))
+      pure (pad, toks))
+    let n := match rows with | r :: _ => r.2.length | [] => 0
+    let hyp := (q == SQ || q == DQ) && rows.all (fun r => arffRowOk q r.2 && r.2.length == n)
+    pure (obj [("lines", linesJ (rows.map (fun r => arffWriteRow q (fun c => also.contains c) r.1 r.2))), ("hyp", Json.bool hyp)])
   | _ => throw s!"unknown op {op}"
 
 end Coba.C12.Driver
